@@ -340,6 +340,34 @@ def _run_case(ck, desc):
                         ck.violation("monotone-in-own-saturation", {"phase": kn, "across_records": True, "lower_saturation": sa_[o_[j_]].tolist(), "higher_saturation": sa_[o_[j_ + 1]].tolist(), "k": [float(kv[j_]), float(kv[j_ + 1])]}, desc)
                 ck.count("batches_sorted_by_own_saturation")
         if kind == "records" and len(desc["sats"]) >= 1:
+            # end-member records as a spreadsheet types them - whole numbers in INTEGER columns - with the parameters
+            # written the way the docs write them (RelPermParams(2, 2, 2, 0, 0, 0, 1, 1, 1): ints where integral)
+            sa_i = np.asarray(desc["sats"], dtype=float).reshape(-1, 3)
+            whole = sa_i[np.all(sa_i == np.round(sa_i), axis=1)]
+            p_typed = RelPermParams(*[int(v) if float(v).is_integer() else v for v in desc["params"]])
+            if len(whole):
+                names_ = list(ORDERS[desc.get("order", 0) % len(ORDERS)])
+                for dt_ in ("i8", "i4", "u1"):
+                    rec_i = np.zeros(len(whole), dtype=[(n_, dt_) for n_ in names_])
+                    rec_i["So"], rec_i["Sw"], rec_i["Sg"] = whole[:, 0], whole[:, 1], whole[:, 2]
+                    try:
+                        ri_ = relative_permeabilities(rec_i, p_typed)
+                    except Exception as e:  # noqa: BLE001
+                        ck.violation("admissible-input-accepted", {"records": f"whole-number records in {dt_} fields", "parameters": "ints where integral", "raised": repr(e)[:160]}, desc)
+                        break
+                    rf_ = relative_permeabilities(_records(whole.tolist(), desc.get("order", 0)), params)
+                    if any(not np.allclose(np.asarray(ri_[n_], dtype=float), np.asarray(rf_[n_], dtype=float), rtol=1e-12, atol=0) for n_ in NAMES):
+                        ck.violation("same-result-for-integer-typed-records", {"dtype": dt_}, desc)
+                        break
+                    ck.count("batches_of_integer_typed_records")
+            if float(desc["params"][4]).is_integer():
+                # the two-phase helper at a whole-number water saturation (Sw = 0 with S_wc = 0: "no water")
+                try:
+                    relative_permeabilities_twophase(p_typed, int(desc["params"][4]))
+                    ck.count("twophase_helper_at_integer_water_saturation")
+                except Exception as e:  # noqa: BLE001
+                    ck.violation("admissible-input-accepted", {"through": "relative_permeabilities_twophase", "Sw": int(desc["params"][4]), "parameters": "ints where integral", "raised": repr(e)[:160]}, desc)
+            judge_events(ck, desc)
             # the records as a view into a wider cell-state array (hidden fields between the saturations)
             packed_ = _records(desc["sats"], desc.get("order", 0))
             for hid_ in ((-0.3, 5.0), (0.0, 0.0), (1.0, -1.0)):
